@@ -146,7 +146,7 @@ Section Box.
       destruct (if filt then _ else _) as [X1 G2].
       destruct (is_f0_target_reached _ _); [apply hoare_ret; split; [exact Bx|exact H2]|].
       destruct (is_f0_min_change_reached _ _ _); [apply hoare_ret; split; [exact Bx|exact H2]|].
-      destruct (update_mem K c _ _ _ _ _) as [[X2 G3] m2].
+      destruct (update_mem_f K c _ _ _ _ _ _) as [[X2 G3] m2].
       destruct (u_cb U) as [cb|]; [|apply hoare_ret; split; [exact Bx|exact H2]].
       eapply hoare_bind with (R1 := fun _ => True); [apply hoare_call; [exact Bx|auto]|].
       intros b _. destruct b; apply hoare_ret; (split; [exact Bx|exact H2]).
